@@ -41,6 +41,10 @@ THEOREMS = [
     "C09_setter_keeps_links",
     "C09_assignment_reaches_chain",
     "C09_reassign_repairs",
+    "C09_refused_write_all_or_nothing",
+    "C09_store_first_witness",
+    "C09_factory_fresh_class",
+    "C09_factory_stale_witness",
     "C09_links_sync_receiving_witness",
     "C09_links_sync_not_statement",
     "C09_dup_return_repaired",
@@ -92,6 +96,10 @@ def tok(v):
 
     if v is NOT_DATA:
         return "ND"
+    if isinstance(v, bool):
+        return f"?{v!r}"
+    if isinstance(v, int):
+        return f"i{v}"
     if isinstance(v, str):
         return v
     if isinstance(v, (tuple, list)) and v and isinstance(v[0], str) and v[0].startswith("f"):
@@ -103,6 +111,8 @@ def jtok(v):
     """token of a JSON value without touching the library"""
     if v is None:
         return "ND"
+    if isinstance(v, int):
+        return f"i{v}"
     if isinstance(v, str):
         return v
     return f"{v[0]}(" + ",".join(jtok(x) for x in v[1:]) + ")"
@@ -112,6 +122,8 @@ def ptoks(v):
     """prefix tokens of a JSON value for the Lean driver"""
     if v is None:
         return ["ND"]
+    if isinstance(v, int):
+        return [f"i{v}"]
     if isinstance(v, str):
         return [v]
     out = ["A", v[0][1:], str(len(v) - 1)]
@@ -474,6 +486,33 @@ def _targets(defn):
     return t
 
 
+def accepts(defn, path, k, val, locked):
+    """would `node_at_path.inputs[k].value = val` go through: no node on the chain of value links is locked
+    (marked running) and no hinted macro input on it rejects the value (only `str | tuple` rejects an int)"""
+    if [int(x) for x in path] in [list(q) for q in locked]:
+        return False
+    nd = node_at(defn, path)
+    if nd["t"] != "M":
+        return True
+    if nd["args"][k]["h"] == 1 and isinstance(val, int):
+        return False
+    ro = role(nd, k)
+    if ro[0] == "child":
+        return accepts(defn, list(path) + [ro[1]], ro[2], val, locked)
+    return True
+
+
+def chain_nodes(defn, path, k):
+    """paths of the nodes an assignment to input k of the node at `path` reaches through value links"""
+    nd = node_at(defn, path)
+    out = [list(path)]
+    if nd["t"] == "M":
+        ro = role(nd, k)
+        if ro[0] == "child":
+            out += chain_nodes(defn, list(path) + [ro[1]], ro[2])
+    return out
+
+
 def chain_in(defn, path, k):
     """the value links an assignment to input k of the macro at `path` forwards through"""
     nd = node_at(defn, path)
@@ -602,6 +641,28 @@ def gen_history(rng, defn, mode, cache):
             ops.append(["run"])
     if not any(o[0] in ("run", "call") for o in ops):
         ops.append(["run"])
+    # refused writes: an int for a chain that has a `str | tuple` consumer below, or any value while a node of
+    # the chain is marked running; then the history goes on (reads, a repair, a run)
+    if rng.random() < 0.35:
+        cands = [([], k) for k in range(nargs)] + [(list(p), k) for p in _paths(defn)
+                                                   if node_at(defn, p)["t"] == "M" and mode != "clean"
+                                                   for k in range(len(node_at(defn, p)["args"]))
+                                                   if input_kind(defn, list(p), k) == "free"]
+        extra = []
+        rng.shuffle(cands)
+        for p, k in cands[:3]:
+            if not accepts(defn, p, k, 7, []):
+                extra.append([["setin", p, k, rng.randint(1, 9)]])
+            ch = chain_nodes(defn, p, k)
+            if len(ch) > 1 and rng.random() < 0.7:
+                q = rng.choice(ch[1:])
+                extra.append([["lock", q], ["setin", p, k, _value(rng)], ["unlock", q]])
+        for grp in extra[:2]:
+            # before a run, never between a receiving-side write and its repair
+            at = rng.randrange(len(ops) + 1)
+            ops[at:at] = grp
+            if rng.random() < 0.6:
+                ops.append(["run"])
     # some runs go through a by-value executor: the macro itself (pickled, run on the copy, merged back) or a
     # nested macro child inside the run
     mac_paths = [[]] + [list(p) for p in _paths(defn) if node_at(defn, p)["t"] == "M"]
@@ -787,6 +848,40 @@ def chain_spec(case, c):
     return list(k[x]["rets"])
 
 
+def gen_family(rng):
+    """macro creators that all carry the bare name `Model`, each defined in a local scope (closure family, two
+    set-up functions), with different arities, defaults, hints, labels and bodies; classes are created and
+    instantiated in any interleaving, through the decorator or through `macro_node`"""
+    ids = _Ids()
+    n = rng.randint(2, 3)
+    defs = []
+    for _ in range(n):
+        d = gen_macro(rng, ids, 0, False, allow_base=False)
+        for a in d["args"]:
+            if a["d"] is None:
+                a["d"] = _const(rng)
+        if not hints_consistent(d):
+            strip_hints(d)
+        for j, ch in enumerate(d["body"]):  # (data cycles are the business of the hand-wired cases)
+            ch["srcs"] = [["n"] if D.is_fwd(j, sx) else sx for sx in ch["srcs"]]
+        defs.append(d)
+    steps = []
+    made = set()
+    for _ in range(rng.randint(3, 7)):
+        k = rng.randrange(n)
+        r = rng.random()
+        if r < 0.4 or (k not in made and r < 0.75):
+            steps.append(["make", k])
+            made.add(k)
+        elif k in made and r < 0.8:
+            steps.append(["inst", k])
+        else:
+            steps.append(["node", k])
+    for k in sorted(made):
+        steps.append(["inst", k])
+    return {"family": defs, "steps": steps}
+
+
 MALFORMED = [
     "frobnicate",
     "def L 0 0",
@@ -804,6 +899,8 @@ MALFORMED = [
     "run now",
     "call 1 0 c0",
     "resend - x",
+    "lock",
+    "setin - 0 i",
     "lab m 3 a b",
     "lab m x",
     "resendout 0",
@@ -832,6 +929,8 @@ def gen_cases(rng, tier):
         yield gen_chain(rng)
     for _ in range(40 if tier == "quick" else 400):
         yield _wired_case(rng)
+    for _ in range(50 if tier == "quick" else 500):
+        yield gen_family(rng)
     yield {"malformed": MALFORMED}
 
 
@@ -1195,6 +1294,16 @@ def run_impl(case):
     variant = list(_variant())
     if "malformed" in case:
         return {"obs": ["bad-op"] * len(case["malformed"]), "variant": variant, "stats": {"malformed": 1}}
+    if "family" in case:
+        modname = f"c09f_{_h(case['family'])}"
+        cwd = os.getcwd()
+        sys.path.insert(0, cwd)
+        try:
+            return _run_family(case, modname, variant)
+        finally:
+            sys.modules.pop(modname, None)
+            if cwd in sys.path:
+                sys.path.remove(cwd)
     if "chain" in case:
         modname = f"c09k_{_h(case['chain'])}"
         cwd = os.getcwd()
@@ -1214,6 +1323,70 @@ def run_impl(case):
         sys.modules.pop(modname, None)
         if cwd in sys.path:
             sys.path.remove(cwd)
+
+
+def _run_family(case, modname, variant):
+    import importlib
+
+    from pyiron_workflow.channels import NOT_DATA
+
+    defs = case["family"]
+    obs, problems = [], []
+    stats = {"family": 1}
+    with open(f"{modname}.py", "w") as f:
+        f.write(D.render_family(defs))
+    importlib.invalidate_caches()
+    try:
+        mod = importlib.import_module(modname)
+    except Exception as e:  # noqa: BLE001
+        return {"obs": [f"def-exc:{type(e).__name__}"], "variant": variant, "problems": [("definition", str(e)[:200])],
+                "stats": stats}
+    classes = {}
+    for step in case["steps"]:
+        kind, k = step
+        d = defs[k]
+        stats[f"fam:{kind}"] = stats.get(f"fam:{kind}", 0) + 1
+        try:
+            if kind == "make":
+                classes[k] = getattr(mod, f"make_{k}")()
+                cls = classes[k]
+                pv = cls.preview_io()
+                exp_in = {f"x{i}": (HINT_OBJ[a["h"]], NOT_DATA if a["d"] is None else D.to_py(a["d"]))
+                          for i, a in enumerate(d["args"])}
+                got_in = dict(pv["inputs"])
+                if list(got_in) != list(exp_in) or any(
+                        not (got_in[x][0] == exp_in[x][0] and got_in[x][1] == exp_in[x][1]) for x in exp_in):
+                    problems.append(("inputs", f"class of creator {k}: preview inputs {got_in}, its signature says {exp_in}"))
+                if list(pv["outputs"]) != D.out_labels(d):
+                    problems.append(("output-labels", f"class of creator {k}: outputs {list(pv['outputs'])}, "
+                                                      f"expected {D.out_labels(d)}"))
+                continue
+            m = classes[k](label="m") if kind == "inst" else getattr(mod, f"node_{k}")(label="m")
+            pre = []
+            _instance_iface(d, m, [], pre)
+            if pre:
+                problems += [(p, f"instance of creator {k}: {t}") for p, t in pre]
+                obs.append("iface-mismatch")
+                continue
+            obs.append("build ok")
+            obs.append("iface " + _iface(d, m))
+            obs.append("static " + _static(d, m))
+            obs.append("st " + _show(_snap(d, m)))
+            m.run()
+            snap = _snap(d, m)
+            obs.append("run ok")
+            obs.append("st " + _show(snap))
+            exp = py_eval(d, snap["in"], {}, (), None)
+            obs.append("den [" + ",".join(exp) + "]")
+            ins_py = [m.inputs[f"x{i}"].value for i in range(len(d["args"]))]
+            flat = _run_flat(d, ins_py, {})
+            obs.append("flat [" + ",".join(flat) + "]")
+            if snap["out"] != exp:
+                problems.append(("outputs", f"instance of creator {k} returned {snap['out']}, its body composes to {exp}"))
+        except Exception as e:  # noqa: BLE001
+            problems.append(("raised", f"step {step}: {type(e).__name__}: {str(e)[:200]}"))
+            obs.append(f"exc:{type(e).__name__}")
+    return {"obs": obs, "variant": variant, "problems": problems, "stats": stats}
 
 
 def _run_chain(case, modname, variant):
@@ -1391,6 +1564,10 @@ def _run(case, modname, variant):
             path = op[1]
             target = _descend(m, path)
             nd = node_at(defn, path)
+            if op[0] in ("lock", "unlock"):
+                target.running = op[0] == "lock"
+                facts["snaps"].append(_snap(defn, m))
+                continue
             if op[0] == "resend":
                 # the very object the channel holds is assigned again
                 ch = target.inputs[_in_label(nd, op[2])]
@@ -1408,7 +1585,17 @@ def _run(case, modname, variant):
                 continue
             val = D.to_py(op[3])
             if op[0] == "setin":
-                target.inputs[_in_label(nd, op[2])].value = val
+                try:
+                    target.inputs[_in_label(nd, op[2])].value = val
+                except (TypeError, RuntimeError) as e:
+                    # refused by a hint or by a lock somewhere on the chain: the history goes on
+                    snap = _snap(defn, m)
+                    facts["snaps"].append(snap)
+                    facts.setdefault("refused", []).append([len(facts["snaps"]) - 1, type(e).__name__])
+                    obs.append("refused")
+                    obs.append("st " + _show(snap))
+                    bump("write:refused")
+                    continue
                 if path:
                     pristine = False
                     if input_kind(defn, path, op[2]) == "free":
@@ -1439,6 +1626,8 @@ def _run(case, modname, variant):
 def nontrivial(case, r):
     if "malformed" in case:
         return False
+    if "family" in case:
+        return sum(1 for st in case["steps"] if st[0] != "make") >= 2
     if "chain" in case:
         return any(not k["overrides"] or k["declared"] for k in case["chain"][1:]) or len(case["chain"]) > 2
     return bool(case["def"]["body"]) and any(x.get("ok") for x in r.get("facts", {}).get("runs", []))
@@ -1450,6 +1639,14 @@ def nontrivial(case, r):
 def model_input(case, impl=None):
     if "malformed" in case:
         return list(case["malformed"])
+    if "family" in case:
+        v = (impl or {}).get("variant") or [0, 0, 1]
+        lines = [f"cfg {v[0]} {v[1]}"]
+        for kind, k in case["steps"]:
+            if kind != "make":
+                # whichever way the class came about, the instance is that of creator k (C09_factory_fresh_class)
+                lines += ["def " + " ".join(node_toks(case["family"][k])), "build 0", "run"]
+        return lines
     if "chain" in case:
         v = (impl or {}).get("variant") or [0, 0, 1]
         num = _chain_tables(case)
@@ -1487,6 +1684,8 @@ def model_input(case, impl=None):
             for k, val in op[1]:
                 kw += [str(k), *ptoks(val)]
             lines.append(" ".join(["call", str(len(op[1])), *kw]))
+        elif op[0] in ("lock", "unlock"):
+            lines.append(f"{op[0]} {path_tok(op[1])}")
         elif op[0] in ("resend", "resendout"):
             lines.append(" ".join([op[0], path_tok(op[1]), str(op[2])]))
         else:
@@ -1496,6 +1695,8 @@ def model_input(case, impl=None):
 
 def corr_view(case, impl):
     obs = impl["obs"]
+    if "family" in case:
+        return None if impl.get("problems") else obs
     if "malformed" in case or "chain" in case:
         return obs
     if impl.get("facts", {}).get("build") == "iface":
@@ -1588,6 +1789,13 @@ def _sync_all(n, s, path, out):
 
 def oracle(case, impl):
     if "malformed" in case:
+        return []
+    if "family" in case:
+        pr = impl.get("problems") or []
+        if pr:
+            part, text = pr[0]
+            clause = {"outputs": "outputs", "definition": "definition", "raised": "update-raised"}.get(part, "interface")
+            return _f(clause, text, trigger="family", part=part, label_inheritance=False, family=True)
         return []
     if "chain" in case:
         got = impl.get("chain_got")
@@ -1687,6 +1895,15 @@ def oracle(case, impl):
                 rf = None
         if s is None:
             break
+        if op[0] in ("lock", "unlock"):
+            continue
+        if any(r[0] == t for r in facts.get("refused", [])):
+            # all or nothing: a refused assignment leaves every channel as it was
+            prev_s = next((x for x in reversed(snaps[:t]) if x is not None), None)
+            if s != prev_s:
+                return fails + _f("refused-write", f"op #{t} {op} was refused but channels changed: "
+                                  f"{_show(prev_s)[:160]} -> {_show(s)[:160]}", trigger=op[0])
+            continue
         if op[0] == "setin" and op[1] and input_kind(defn, op[1], op[2]) == "free":
             ov[(tuple(op[1]), op[2])] = jtok(op[3])
         if t > 0:
@@ -1736,6 +1953,20 @@ def _refs_child(m, j):
 
 def shrink_candidates(case):
     if "malformed" in case:
+        return
+    if "family" in case:
+        st = case["steps"]
+        for i in range(len(st)):
+            cand = st[:i] + st[i + 1:]
+            made = set()
+            ok = True
+            for kind, k in cand:
+                if kind == "make":
+                    made.add(k)
+                elif kind == "inst" and k not in made:
+                    ok = False
+            if ok and cand:
+                yield {**case, "steps": cand}
         return
     if "chain" in case:
         for i in range(len(case["reqs"])):
